@@ -565,3 +565,117 @@ pub fn fixed<S: USet>(e: &mut Eng<S>, profile: &str) {
         crate::profiles::audit(e, 2, true);
     }
 }
+
+/// Small-scope exhaustive comparison of the private primitives with the model (support for the tie, not a proof):
+/// every Robin Hood table reachable with `n ≤ nmax` buckets over a small key universe, offsets {0, 3};
+/// `compute_array_bits` on the 2^k lattice; the inline codec on field-boundary lattices.
+pub fn prims<S: USet>(e: &mut Eng<S>, thorough: bool) {
+    use std::collections::{BTreeSet, VecDeque};
+    use std::fmt::Write;
+    e.begin("prims-rh");
+    let nmax = if thorough { 6 } else { 5 };
+    let kmax: u64 = if thorough { 13 } else { 10 };
+    let show = |a: &Vec<u64>| {
+        let mut s = String::new();
+        for x in a {
+            write!(s, " {}", x).unwrap();
+        }
+        s
+    };
+    for off in [0u64, 3] {
+        for n in 1..=nmax {
+            let start: Vec<u64> = vec![0; n];
+            let mut seen: BTreeSet<Vec<u64>> = BTreeSet::new();
+            let mut q = VecDeque::new();
+            seen.insert(start.clone());
+            q.push_back(start);
+            let mut states = 0;
+            while let Some(a) = q.pop_front() {
+                states += 1;
+                if states > (if thorough { 6000 } else { 1500 }) {
+                    break;
+                }
+                for k in 0..kmax {
+                    // lookup
+                    let (kind, idx) = S::prim_lookfor(k, &a, off);
+                    e.emit(&format!("plf {} {} {}{} {} {}", off, k, n, show(&a), kind, idx));
+                    // removal
+                    let mut b = a.clone();
+                    let r = S::prim_remove(k, &mut b, off);
+                    e.emit(&format!("prm {} {} {}{} {}{}", off, k, n, show(&a), r as u8, show(&b)));
+                    if r && seen.insert(b.clone()) {
+                        q.push_back(b);
+                    }
+                    // insertion of a fresh key (precondition of p_insert: room, key absent)
+                    let present = a.iter().any(|&w| w != 0 && (w >> off) == k);
+                    if !present && a.iter().any(|&w| w == 0) && (off == 0 && k != 0 || off > 0) {
+                        let mut c = a.clone();
+                        let i = S::prim_insert(k, &mut c, off);
+                        e.emit(&format!("pin {} {} {}{} {}{}", off, k, n, show(&a), i, show(&c)));
+                        let word = if off == 0 { k } else { (k << off) | (1 + (k % 7)) };
+                        c[i] = word;
+                        if seen.insert(c.clone()) {
+                            q.push_back(c);
+                        }
+                    }
+                }
+            }
+            e.bump(&format!("prims:tables:n{}:off{}", n, off));
+            *e.stats.entry("prims:states".into()).or_insert(0) += states as u64;
+        }
+    }
+    e.begin("prims-cab");
+    for k in 0..S::W as u64 {
+        for d in [0u64, 1, 2] {
+            let x = ((1u128 << k) as u64).wrapping_add(d).wrapping_sub(1) & S::max_elem();
+            e.emit(&format!("cab {} {}", x, S::prim_cab(x)));
+        }
+    }
+    e.emit(&format!("cab {} {}", S::max_elem(), S::prim_cab(S::max_elem())));
+    e.begin("prims-tiny");
+    let table = splits::<S>();
+    for n in 1..table.len() {
+        let ws = &table[n];
+        let choices = 4usize.pow(n as u32).min(if thorough { 20000 } else { 3000 });
+        for code in 0..choices {
+            let mut f = vec![];
+            let mut c = code;
+            for w in ws {
+                let top = (1u64 << w) - 1;
+                f.push([0, 1, top, top + 1][c % 4]);
+                c /= 4;
+            }
+            let members = match from_fields(&f) {
+                Some(m) if m.iter().all(|&x| x <= S::max_elem()) => m,
+                _ => continue,
+            };
+            let w = S::prim_tiny_new(&members);
+            let mut l = format!("tnew {}", members.len());
+            for x in &members {
+                write!(l, " {}", x).unwrap();
+            }
+            e.emit(&format!("{} {}", l, w.map(|x| x.to_string()).unwrap_or("none".into())));
+            if let Some(word) = w {
+                let items = S::prim_tiny_items(word);
+                if items != members {
+                    e.fail("C10,C04", format!("inline word of {:?} decodes to {:?}", members, items));
+                }
+                // insert / contains probes around every member and field boundary
+                let mut probes: Vec<u64> = vec![0, 1, S::max_elem()];
+                for &m in &members {
+                    probes.extend_from_slice(&[m, m.wrapping_sub(1), m.wrapping_add(1)]);
+                }
+                for p in probes {
+                    let p = p & S::max_elem();
+                    let c = S::prim_tiny_contains(word, p);
+                    e.emit(&format!("tcon {} {} {}", word, p, c as u8));
+                    if c != members.contains(&p) {
+                        e.fail("C01,C02", format!("inline contains({}) = {} for {:?}", p, c, members));
+                    }
+                    let r = S::prim_tiny_insert(word, p);
+                    e.emit(&format!("tins {} {} {}", word, p, r.map(|x| x.to_string()).unwrap_or("none".into())));
+                }
+            }
+        }
+    }
+}
